@@ -95,7 +95,11 @@ def generic_codec_check(pid, tier, seed, t0, runs, gate_pid=None, nontrivial=Non
     for mode, nq, nt, extra, b2, f2 in (extra_runs or []):
         recs2 = run_harness(mode, seed, nq if tier == "quick" else nt, extra, binary=b2)
         recs2 = [r for r in recs2 if pid in (r.get("oracle") or {})]   # only what concerns this property
-        mism += compare(recs2, family=f2)
+        if f2 is None:   # judged by the oracles alone
+            for r in recs2:
+                r["skip"] = True
+        else:
+            mism += compare(recs2, family=f2)
         recs += recs2
     oracle_fail = []
     tags = collections.Counter()
@@ -237,12 +241,15 @@ def check_C11(pid, tier, seed, t0):
     return generic_codec_check(
         pid, tier, seed, t0,
         runs=[("decode", 20000, 1000000, None), ("parallel", 60, 400, None)],
+        extra_runs=[("session", 800, 20000, None, "session", None)],
         nontrivial=lambda r: True,
         rule="five streams: arbitrary bytes; hostile bodies framed with a solved BodyLength/CheckSum so that they pass "
              "the integrity check (missing '=', empty values, repeated delimiters, count tags at the end, wrong counts); "
              "structural mutations of valid messages re-framed; ValueByTag on arbitrary/truncated data with exact, "
              "empty, prefix and suffix tags; fixed corner cases; each against a random nested-group template, under a "
-             "5 s watchdog; result kind and parsed projection compared with the model; distinct = distinct protocol line",
+             "5 s watchdog; result kind and parsed projection compared with the model; distinct = distinct protocol line; plus "
+             "session scenarios (oracle only here): no inbound message of any scenario makes the session's inbound path "
+             "panic or hang (resend ranges at the ends of the integer range included)",
         assumptions=["header and trailer components are set on the message type (NewMessage without SetHeader is unusable "
                      "even for serialization)"])
 
